@@ -26,11 +26,12 @@ Record Sim (g : ledger) (s : st) : Prop := {
   s_rts : forall n t, find_rt s n = Some t ->
             exists t', g_rt g n = Some t' /\ rel t t' /\ nat_in n (g_rot g) = false;
   s_rbound : forall n t', g_rt g n = Some t' -> n <= next s;
-  s_rotbound : forall n, In n (g_rot g) -> n <= next s
+  s_rotbound : forall n, In n (g_rot g) -> n <= next s;
+  s_noref : g_norefresh g = norefresh s
 }.
 
 Lemma sim_init : Sim ledger0 init.
-Proof. constructor; cbn; intros; try contradiction; discriminate. Qed.
+Proof. constructor; cbn; intros; try contradiction; try reflexivity; discriminate. Qed.
 
 Section S.
 Variable H : string -> string.
@@ -60,27 +61,28 @@ Lemma sim_step g s o s' x :
   trans H cf s o s' x ->
   c04_ok H cf g o x = true /\ c07_ok cf g o x = true /\ Sim (ledger_step g o x) s'.
 Proof.
-  intros [Scodes Sreqs Scb Sub Srts Srb Srot] Hdone Ht.
+  intros [Scodes Sreqs Scb Sub Srts Srb Srot Snr] Hdone Ht.
   destruct Ht as [o x Hx | cl uri scopes nonce chal | n sub stamp q Hq | n q Hq Hd
-                 | cr cd uri ver q c Hcr Hfc Hp Hu Hch Hpub | cr n scopes t c sc Hrt Hfc Hr Hfl Hp Hn].
+                 | pl f cr cd uri ver q c Hcr Hfc Hp Hu Hch Hpub | pl cr n scopes t c sc Hrt Hfc Hr Hfl Hp Hn
+                 | cl].
   - (* inert *)
     assert (Hl : ledger_step g o x = g).
-    { destruct o, x as [[?|]|[|]| | | | | | |]; try contradiction; reflexivity. }
+    { destruct o, x as [[?|]|[|]| | | | | | | |]; try contradiction; reflexivity. }
     rewrite Hl. split; [|split; [|constructor; assumption]].
-    + destruct o, x as [[?|]|[|]| | | | | | |]; try contradiction; try reflexivity;
-        match goal with |- context [TokenCode _ ?c _ _] => destruct c; reflexivity end.
-    + destruct o, x as [[?|]|[|]| | | | | | |]; try contradiction; try reflexivity;
-        match goal with |- context [TokenRefresh _ ?c _] => destruct c; reflexivity end.
+    + destruct o, x as [[?|]|[|]| | | | | | | |]; try contradiction; try reflexivity;
+        match goal with |- context [TokenCode _ _ _ ?c _ _] => destruct c; reflexivity end.
+    + destruct o, x as [[?|]|[|]| | | | | | | |]; try contradiction; try reflexivity;
+        match goal with |- context [TokenRefresh _ _ ?c _] => destruct c; reflexivity end.
   - (* authorize *)
     split; [reflexivity|]. split; [reflexivity|]. cbn [ledger_step].
-    constructor; cbn [g_reqs g_codes g_used g_rts g_rot reqs codes rtoks next ncode]; try assumption.
+    constructor; cbn [g_reqs g_codes g_used g_rts g_rot g_norefresh reqs codes rtoks next ncode norefresh]; try assumption.
     + intros n q. unfold find_req, g_req. cbn [reqs g_reqs find q_id].
       destruct (Nat.eqb (S (next s)) n); [auto | apply Sreqs].
     + intros n t' Hg. apply Srb in Hg. lia.
     + intros n Hin. apply Srot in Hin. lia.
   - (* login *)
     split; [reflexivity|]. split; [reflexivity|]. cbn [ledger_step].
-    constructor; cbn [g_reqs g_codes g_used g_rts g_rot reqs codes rtoks next ncode]; try assumption.
+    constructor; cbn [g_reqs g_codes g_used g_rts g_rot g_norefresh reqs codes rtoks next ncode norefresh]; try assumption.
     intros m q0. unfold find_req at 1. cbn [reqs]. rewrite find_req_login. unfold g_req at 1. cbn [g_reqs].
     rewrite g_req_login. destruct (find_req s m) as [q1|] eqn:Hq1; [|discriminate].
     rewrite (Sreqs _ _ Hq1). intro Hx. exact Hx.
@@ -89,7 +91,7 @@ Proof.
     { destruct (lookup (S (ncode s)) (g_codes g)) eqn:E; [apply Scb in E; lia | reflexivity]. }
     split. { cbn [c04_ok]. rewrite (Sreqs _ _ Hq), Hd, Hfresh. reflexivity. }
     split; [reflexivity|]. cbn [ledger_step].
-    constructor; cbn [g_reqs g_codes g_used g_rts g_rot reqs codes rtoks next ncode]; try assumption.
+    constructor; cbn [g_reqs g_codes g_used g_rts g_rot g_norefresh reqs codes rtoks next ncode norefresh]; try assumption.
     + intros c' n' [E | Hin].
       * inversion E; subst. cbn [lookup]. rewrite Nat.eqb_refl. split; [reflexivity|].
         apply nat_in_false. intro Hu'. apply Sub in Hu'. lia.
@@ -107,7 +109,7 @@ Proof.
     pose proof (Sreqs _ _ Hqf) as Hgq.
     pose proof (proj1 (find_client_id cf _ _ Hfc)) as Hcid.
     unfold issue_code. cbn [fst snd].
-    set (w := string_in "offline_access" (q_scopes q) && c_refresh c).
+    set (w := string_in "offline_access" (q_scopes q) && has_refresh s c).
     split.
     { cbn [c04_ok]. rewrite Hlk, Hgq, Hnu, Hd, Hp, Hu, String.eqb_refl. cbn [negb andb].
       assert (Hc1 : match q_chal q with Some ch => chal_ok H ch ver | None => negb (client_public cf (q_client q)) end = true).
@@ -120,7 +122,7 @@ Proof.
       destruct (c_jwt c); [|reflexivity]. rewrite Hcid. apply String.eqb_refl. }
     split; [reflexivity|].
     cbn [ledger_step]. unfold add_rt. cbn [t_rt].
-    constructor; cbn [g_reqs g_codes g_used g_rts g_rot reqs codes rtoks next ncode].
+    constructor; cbn [g_reqs g_codes g_used g_rts g_rot g_norefresh reqs codes rtoks next ncode norefresh].
     + intros c' n' Hin. apply filter_In in Hin as [Hin Hne]. cbn in Hne.
       apply negb_true_iff, Nat.eqb_neq in Hne.
       destruct (Scodes _ _ Hin) as [Hl Hu']. split; [exact Hl|].
@@ -145,19 +147,21 @@ Proof.
         intro Hg. apply Srb in Hg. lia.
       * intro Hg. apply Srb in Hg. lia.
     + intros m Hin. apply Srot in Hin. destruct w; lia.
+    + exact Snr.
   - (* refresh *)
     destruct (Srts _ _ Hrt) as [t' [Hgt [[R1 [R2 [R3 [R4 R5]]]] Hnrot]]].
     pose proof (proj1 (find_client_id cf _ _ Hfc)) as Hcid.
     pose proof (Srb _ _ Hgt) as Hnle.
     destruct (narrowed_subset _ _ _ Hn) as [Hs1 Hs2].
     destruct (find_rt_in _ _ _ Hrt) as [_ Htid].
+    unfold has_refresh in Hr. apply andb_true_iff in Hr as [Hr Hnref]. rewrite Hcid, <- Snr in Hnref.
     assert (Hfresh : g_rt g (S (next s)) = None).
     { destruct (g_rt g (S (next s))) eqn:E; [apply Srb in E; lia | reflexivity]. }
     unfold issue_refresh. cbn [fst snd].
     split; [reflexivity|].
     split.
     { cbn [c07_ok]. rewrite Hgt, Hnrot, Hfl, R1, Hp, R5, Hs2. cbn [negb andb t_scope t_jwt t_rt].
-      unfold client_refresh. rewrite Hfc, Hr, Hs1. cbn [andb].
+      unfold client_refresh. rewrite Hfc, Hr, Hnref, Hs1. cbn [andb].
       assert (Hj : match (if c_jwt c then Some (c_id c) else None) with
                    | Some c0 => String.eqb c0 (r_client t) | None => true end = true).
       { destruct (c_jwt c); [rewrite Hcid; apply String.eqb_refl | reflexivity]. }
@@ -166,7 +170,7 @@ Proof.
       rewrite Hne. cbn [negb andb t_sub t_at_sub t_aud t_azp t_auth].
       rewrite R2, R3, R4, openid_guard, !String.eqb_refl, strs_eqb_refl, Nat.eqb_refl. reflexivity. }
     cbn [ledger_step]. unfold add_rt. cbn [t_rt].
-    constructor; cbn [g_reqs g_codes g_used g_rts g_rot reqs codes rtoks next ncode]; try assumption.
+    constructor; cbn [g_reqs g_codes g_used g_rts g_rot g_norefresh reqs codes rtoks next ncode norefresh]; try assumption.
     + intros m t1 Hf. unfold find_rt in Hf. cbn [rtoks find r_id] in Hf.
       unfold g_rt. cbn [g_rts find r_id rt_of_resp].
       destruct (Nat.eqb (S (next s)) m) eqn:E.
@@ -184,6 +188,10 @@ Proof.
       destruct (Nat.eqb (S (next s)) m) eqn:E; [apply Nat.eqb_eq in E; lia|].
       intro Hg. apply Srb in Hg. lia.
     + intros m [<- | Hin]; [lia|]. apply Srot in Hin. lia.
+  - (* refresh grant withdrawn *)
+    split; [reflexivity|]. split; [reflexivity|]. cbn [ledger_step].
+    constructor; cbn [g_reqs g_codes g_used g_rts g_rot g_norefresh reqs codes rtoks next ncode norefresh]; try assumption.
+    now rewrite Snr.
 Qed.
 
 (* ---- whole histories ---- *)
